@@ -1009,6 +1009,28 @@ def _c20_per_sig(ps, ctr):
     except Exception as e:  # noqa
         fails.append('func_from_sig-defaults-raises: %r: %s %s' % (text, type(e).__name__, e))
     if ctr['c20:signatures'] == 1:
+        # signatures made one after the other, each binding the SAME name through `pre`: each keeps its own binding
+        # (postponed annotations are evaluated later, in the globals of the function they were made with)
+        for future in ((), ('annotations',)):
+            try:
+                with warnings.catch_warnings():
+                    warnings.simplefilter('ignore')
+                    made = [(val, support.s('a: T, *, b: T = 1', 'T', pre='T = %s' % val, future_features=future))
+                            for val in ('int', 'str', 'bytes')]
+                    fns = [(val, support.f('a: T', 'T', pre='T = %s' % val, future_features=future)) for val in ('int', 'str', 'bytes')]
+                    for val, sg in made:
+                        ev = sg.evaluated()
+                        got = (ev.parameters['a'].annotation, ev.parameters['b'].annotation, ev.return_annotation)
+                        if got != (eval(val),) * 3:
+                            fails.append('s-pre-binding: s(..., pre=%r, future=%s) made among others evaluates its annotations to %r' % (
+                                'T = ' + val, future, got))
+                    import typing
+                    for val, fn in fns:
+                        hints = typing.get_type_hints(fn)
+                        if hints.get('a') is not eval(val):
+                            fails.append('s-pre-binding: f(..., pre=%r, future=%s): the annotation of a denotes %r' % ('T = ' + val, future, hints.get('a')))
+            except Exception as e:  # noqa
+                fails.append('s-pre-binding-raises: %s %s' % (type(e).__name__, e))
         # deterministic probe of finding D41: a default whose text contains the separators read_sig splits on
         for dv in ((1, 2), 'a, b', ' -> '):
             psig = inspect.Signature([inspect.Parameter('a', inspect.Parameter.POSITIONAL_OR_KEYWORD, default=dv)])
@@ -1050,6 +1072,25 @@ def _c20_per_sig(ps, ctr):
             continue
         fails.append('sort_callsigs-invalid-accepted: %s accepts *%s **%s listed as invalid' % (sig, a, k))
         break
+    # the same call shapes with values that are false / None: acceptance is about shapes, not about the values passed
+    falsy = [None, 0, '', (), False]
+    for a, k in cs:
+        if version_dependent(A, list(k.items())):
+            continue
+        a2 = tuple(falsy[j % len(falsy)] for j in range(len(a)))
+        k2 = {name: ('kw', name) for name in k}
+        try:
+            want = ('ok', f(*a2, **k2))
+        except TypeError:
+            want = ('typeerror',)
+        try:
+            got = ('ok', support.bind_callsig(sig, a2, k2))
+        except TypeError:
+            got = ('typeerror',)
+        if got != want:
+            fails.append('bind_callsig-falsy-values: bind_callsig(%s, %r, %r) gives %s, calling the function made by f gives %s' % (
+                sig, a2, k2, got, want))
+            break
     return fails
 
 
